@@ -75,6 +75,9 @@ func TestVerifC19_histogram_agg(t *testing.T) {
 		RTMaxBatch:  2,
 		Seeds:       r.Pick(2, 5),
 		DomainLimit: 8,
+		SweepInsts:    []prio.Inst{c19H(4, 2)},
+		HistoryInsts:  []prio.Inst{c19H(4, 2), c19H(2, 1)},
+		HistoryShares: []int{2, 3},
 	}
 	if r.Thorough() {
 		plan.FullShares = []int{2, 3, 4, 9}
